@@ -21,7 +21,10 @@ RULE = ('each run: generated 1-2 parameter model (recording simulator, smooth di
         'acq_noise_var in {0, scalar, per-parameter dict}, batch_size 1-3, '
         'batches_per_acquisition 1-4, initial_evidence in {count, precomputed dict, 0}, '
         'update_interval 1..inf, async_acq on/off, acquisition in {LCBSC default, LCBSC with '
-        'small n_inits/max_opt_iters, UniformAcquisition, MaxVar, ExpIntVar}, n_evidence 6-20, '
+        'small n_inits/max_opt_iters, LCBSC with additive cost + delta, LCBSC without prior, '
+        'UniformAcquisition, MaxVar, ExpIntVar}, surrogate given (sorted / reversed parameter '
+        'order) or built by BO itself, n_evidence 6-20, in a third of the runs a fixed probe '
+        'point is watched after every iterate() (gradient, then central differences), '
         'optionally continued with a larger n_evidence; driven with set_objective+iterate '
         '(a fraction through infer/fit) on a tape-chosen facade/schedule; the synchronous runs '
         'are compared with the same configuration on the native client. distinct = '
@@ -38,7 +41,9 @@ COMPONENTS = {
 ASSUMPTIONS = [
     'RandMaxVar is unreachable in this environment (NUTS/metropolis float() TypeError under '
     'numpy 2) and therefore not covered',
-    'the acquisition-gradient clause is not decided by this technique',
+    'the acquisition-gradient clause is decided only in its history-dependent form (gradient-tracks-'
+    'surrogate: probe point watched along the run, LCBSC); the analytic identity on a fixed surrogate '
+    'for the other acquisition classes is not decided by this technique',
     'initial-evidence points are prior draws and are not held to the bounds',
     'max_parallel_batches and batches_per_acquisition are always passed explicitly, because '
     'their defaults depend on the client',
